@@ -447,8 +447,11 @@ def advPar (suf : List Char) (S : RSet) : RSet :=
 /-- The value stored where a route ends. -/
 def endsHere (S : RSet) : Option Nat := (S.find? (fun r => r.2.isEmpty)).map (·.1)
 
-def starHere (S : RSet) : Option Nat :=
-  (S.find? (fun r => match r.2 with | .star :: _ => true | _ => false)).map (·.1)
+def startsWithStar : List Tok → Bool
+  | .star :: _ => true
+  | _ => false
+
+def starHere (S : RSet) : Option Nat := (S.find? (fun r => startsWithStar r.2)).map (·.1)
 
 /-- The suffix children of the parameter node that are candidates for this segment: the route must
     go on exactly when the path does (`last` = this is the last path segment). -/
@@ -497,6 +500,32 @@ decreasing_by
       simp only [List.dropWhile_cons, ne_eq, h, not_false_eq_true, decide_true, ↓reduceIte]
       exact length_dropWhile_le _ _
     simp; omega
+
+/-! ### specification side: specificity of routes -/
+
+/-- How far a token goes on static text: a static byte beats a parameter, a parameter with a longer
+    static suffix beats one with a shorter suffix, the catch-all comes last. -/
+def Tok.rank : Tok → Nat × Nat
+  | .c _ => (2, 0)
+  | .par s => (1, s.length)
+  | .star => (0, 0)
+
+/-- `a` is at least as specific as `b`: at the first token where they differ `a` ranks at least as
+    high (two routes that match the same path differ, if at all, in rank there). -/
+def specGE : List Tok → List Tok → Bool
+  | .star :: _, .star :: _ => true
+  | x :: as, y :: bs =>
+    if x = y then specGE as bs
+    else decide (x.rank.1 > y.rank.1) || (x.rank.1 == y.rank.1 && decide (x.rank.2 ≥ y.rank.2))
+  | _, _ => true
+
+/-- No two routes that agree up to a `{param}` carry *nested* static suffixes there (one a proper
+    suffix of the other; a bare `{param}` has the empty suffix). `Node::at` commits to the longest
+    suffix that fits a segment: under this condition at most one fits. -/
+def NoNestedSuffix (S : RSet) : Prop :=
+  ∀ (pre : List Tok) (s1 s2 : List Char) (t1 t2 : List Tok) (i j : Nat),
+    (i, pre ++ Tok.par s1 :: t1) ∈ S → (j, pre ++ Tok.par s2 :: t2) ∈ S →
+    s1 = s2 ∨ (¬ s1 <:+ s2 ∧ ¬ s2 <:+ s1)
 
 /-- `Router::at(path)` for a router holding `routes` (value, pattern). -/
 def atRoutes (routes : List (Nat × List Char)) (path : List Char) : Option Nat :=
